@@ -68,32 +68,36 @@ def run(idx: Index, rep: Report, tier: str) -> None:
     rep.check(ok, rule1, "_condense_state is reached only from __hash__/__repr__/__eq__", cls.loc(), construct=", ".join(sorted(callers)), detail="" if ok else "a read or update path rewrites the state's representation", function=cls.qualname)
 
     rule2 = "C36.2 T2 lookup-order"
+    from ..rules2 import path_facts
+
     gv = M["get_value"]
     cfg = cfg_of(gv)
-    body = [s for s in gv.node.body if not (isinstance(s, ast.Expr) and isinstance(s.value, ast.Constant))]
-    kinds = []
-    for s in body:
-        t = norm(s)
-        if isinstance(s, ast.While) and "_father" in t and "_values.get(fluent" in t:
-            kinds.append("chain")
-        elif "fluents_defaults" in t and isinstance(s, ast.Assign):
-            kinds.append("default")
-        elif isinstance(s, ast.Raise) and "UPStateMissingFluentError" in t:
-            kinds.append("raise")
-    ok = [k for k in kinds if k in ("chain", "default", "raise")] == ["chain", "default", "raise"]
-    rep.check(ok, rule2, "own values and ancestors, then the default, then UPStateMissingFluentError", gv.loc(), construct=" -> ".join(kinds), detail="" if ok else "the lookup order is not values -> ancestors -> default -> raise", function=gv.qualname)
-    wl = [s for s in body if isinstance(s, ast.While)]
-    if wl:
-        w = wl[0]
-        ok = norm(w.test) == "current_instance is not None" and any(isinstance(a, ast.Assign) and norm(a) == "current_instance = current_instance._father" for a in w.body) and any(isinstance(r, ast.Return) for s in w.body for r in ast.walk(s))
-        rep.check(ok, rule2, "the chain is walked from the state itself towards the root, returning the first hit", gv.loc(w), construct=norm(w.test), detail="" if ok else "the most recent update is not the one returned", function=gv.qualname)
-        start = [a for a in body if isinstance(a, (ast.Assign, ast.AnnAssign)) and norm(a.targets[0] if isinstance(a, ast.Assign) else a.target) == "current_instance"]
-        ok = bool(start) and norm(start[0].value) == "self"
-        rep.check(ok, rule2, "the walk starts at the state itself", gv.loc(start[0]) if start else gv.loc(), construct=norm(start[0]) if start else "", function=gv.qualname)
+    whiles = [w for w in walk_no_nested(gv.node) if isinstance(w, ast.While)]
+    chain_ok = False
+    walker = None
+    for w in whiles:
+        names = [x.id for x in ast.walk(w.test) if isinstance(x, ast.Name)]
+        for x in names:
+            steps = any(isinstance(a, ast.Assign) and norm(a.targets[0]) == x and norm(a.value) == f"{x}._father" for a in ast.walk(w))
+            reads = any(isinstance(c, ast.Call) and call_name(c) == "get" and norm(c.func.value) == f"{x}._values" for c in ast.walk(w)) or any(isinstance(sb, ast.Subscript) and norm(sb.value) == f"{x}._values" for sb in ast.walk(w))
+            returns = any(isinstance(r, ast.Return) for r in ast.walk(w))
+            starts = any(isinstance(a, ast.Assign) and norm(a.targets[0]) == x and norm(a.value) == "self" and a.lineno < w.lineno for a in walk_no_nested(gv.node))
+            if steps and reads and returns and starts:
+                chain_ok, walker = True, w
+    rep.check(chain_ok, rule2, "the chain is walked from the state itself towards the root, returning the first hit", gv.loc(walker) if walker is not None else gv.loc(), construct=norm(walker.test) if walker is not None else "no walk over ._father", detail="" if chain_ok else "the most recent update is not the one returned", function=gv.qualname)
+    defaults = [a for a in walk_no_nested(gv.node) if isinstance(a, ast.Assign) and "fluents_defaults" in norm(a.value)]
+    raises = [n for n in cfg.nodes if n.kind == "raise" and n.ast is not None and "UPStateMissingFluentError" in norm(n.ast)]
+    order_ok = chain_ok and bool(defaults) and bool(raises) and all(d.lineno > walker.lineno for d in defaults) and all(getattr(r.ast, "lineno", 0) > min(d.lineno for d in defaults) for r in raises)
+    rep.check(order_ok, rule2, "own values and ancestors, then the default, then UPStateMissingFluentError", gv.loc(), construct="chain -> default -> raise" if order_ok else f"chain: {chain_ok}; default lookups: {len(defaults)}; raises: {len(raises)}", detail="" if order_ok else "the lookup order is not values -> ancestors -> default -> raise", function=gv.qualname)
+    for r in raises:
+        fs = path_facts(cfg, r)
+        ok = any(t.endswith(" is None") and v for t, v in fs)
+        rep.check(ok, rule2, "the error is raised only when neither a value nor a default was found", gv.loc(r.ast), construct=norm(r.ast)[:60], function=gv.qualname)
     for n in cfg.nodes:
-        if n.kind == "return":
-            gs = [(norm(t.ast), o) for t, o in guards_dominating(cfg, n)]
-            ok = any("is not None" in t and o for t, o in gs)
+        if n.kind == "return" and n.ast.value is not None:
+            fs = path_facts(cfg, n)
+            v = norm(n.ast.value)
+            ok = (f"{v} is None", False) in fs or any(t.endswith(" is None") and not val and t[: -len(" is None")] in v for t, val in fs)
             rep.check(ok, rule2, "a value is returned only if it was found", gv.loc(n.ast), construct=norm(n.ast), function=gv.qualname)
 
     rule3 = "C36.3 make_child-updates-win"
@@ -102,8 +106,24 @@ def run(idx: Index, rep: Report, tier: str) -> None:
     rets = [n for n in mcfg.nodes if n.kind == "return"]
     plain = [n for n in rets if isinstance(n.ast.value, ast.Call) and len(n.ast.value.args) == 3 and norm(n.ast.value.args[0]) == "updated_values" and norm(n.ast.value.args[2]) == "self"]
     rep.check(bool(plain), rule3, "below the ancestor limit the child stores the updates with the parent as father", mc.loc(plain[0].ast) if plain else mc.loc(), construct=norm(plain[0].ast) if plain else "", detail="" if plain else "the child does not chain to its parent", function=mc.qualname)
-    seed = [a for a in walk_no_nested(mc.node) if isinstance(a, ast.Assign) and isinstance(a.value, ast.Call) and call_name(a.value) in ("copy", "dict") and "updated_values" in norm(a.value)]
-    sd = [c for c in walk_no_nested(mc.node) if isinstance(c, ast.Call) and call_name(c) == "setdefault" and seed and norm(c.func.value) == norm(seed[0].targets[0])]
+    def _seed_and_fill(fn_node, upd):
+        seed_ = [a for a in walk_no_nested(fn_node) if isinstance(a, ast.Assign) and isinstance(a.value, ast.Call) and call_name(a.value) in ("copy", "dict") and upd in norm(a.value)]
+        sd_ = [c for c in walk_no_nested(fn_node) if isinstance(c, ast.Call) and call_name(c) == "setdefault" and seed_ and norm(c.func.value) == norm(seed_[0].targets[0])]
+        return seed_, sd_
+
+    seed, sd = _seed_and_fill(mc.node, "updated_values")
+    if not (seed and sd):
+        # the flattening may be a private helper of the state that make_child hands the updates to
+        for c in walk_no_nested(mc.node):
+            if isinstance(c, ast.Call) and isinstance(c.func, ast.Attribute) and norm(c.func.value) == "self" and c.func.attr.startswith("_") and c.func.attr in M and any(norm(a) == "updated_values" for a in c.args):
+                h = M[c.func.attr]
+                hp = [p_ for p_ in h.params() if p_ != "self"]
+                pos = [norm(a) for a in c.args].index("updated_values")
+                if pos < len(hp):
+                    s2, d2 = _seed_and_fill(h.node, hp[pos])
+                    if s2 and d2:
+                        seed, sd = s2, d2
+                        break
     ok = bool(seed) and bool(sd)
     rep.check(ok, rule3, "at the ancestor limit the merged map is seeded with the updates and ancestors only fill gaps", mc.loc(seed[0]) if seed else mc.loc(), construct=(norm(seed[0]) + "; " + norm(sd[0])) if ok else "", detail="" if ok else "an ancestor's value can override an update (or the updates are lost) when the chain is flattened", function=mc.qualname)
     muts = [c for c in walk_no_nested(mc.node) if isinstance(c, ast.Call) and isinstance(c.func, ast.Attribute) and c.func.attr in ("setdefault", "update", "pop") and norm(c.func.value) == "updated_values"] + [a for a in walk_no_nested(mc.node) if isinstance(a, ast.Assign) and isinstance(a.targets[0], ast.Subscript) and norm(a.targets[0].value) == "updated_values"]
